@@ -128,6 +128,15 @@ def handleVia : List String → String
         | .dup => "err:dup"
         | .res b => showBool b
     | _, _, _, _, _ => "bad-op"
+  | ["json-not", entries, pats, rhost, p, e] =>
+    match parseList entries, parseList pats, Hex.decode rhost, Hex.decode p, Hex.decode e with
+    | some l, some ps, some h, some p, some e =>
+      if !(inDomainHost l h && inDomainPath ps p e) then "ood"
+      else if !escConsistent p e then "bad-op"
+      else match notCase largeThreshold l ps h p e with
+        | .dup => "err:dup"
+        | .res b => showBool b
+    | _, _, _, _, _ => "bad-op"
   | other => handleSingle other
 
 /-! ### `cfsite`: a Caddyfile site block through the real adapter -/
